@@ -24,7 +24,7 @@ ID = 'C15'
 LEVEL = 'exploration'
 TECHNIQUE = 'bounded-exhaustive requested names x generated directory layouts on a real file system, containment oracle via unique file markers'
 
-SLOT_STATES = ['absent', 'file', 'link-out', 'link-in', 'dir']
+SLOT_STATES = ['absent', 'file', 'link-out', 'link-in', 'dir', 'link-via-dirlink']
 COMPONENTS = ['x', 'x.tex', 'sub', 'g', 'g.tex', 'lnkdir', 'up', '..', '.', 'in2', 'out', 'secret', 's', '..n', '..n.tex', '..d']
 BOUNDS = {'quick': dict(depth=2, depth_small=3), 'thorough': dict(depth=3, depth_small=3)}
 # symlinked directory followed by '..': the file system resolves the link first (lexical collapsing gives another path)
@@ -69,6 +69,8 @@ def build_layout(root, slots):
             os.symlink('../out/secret.tex', p)
         elif state == 'link-in':
             os.symlink('sub/g.tex', p)
+        elif state == 'link-via-dirlink':
+            os.symlink('lnkdir/secret.tex', p)     # file symlink whose target passes through a directory symlink that leads outside
         elif state == 'dir':
             os.makedirs(p)
             mkfile('in/' + slot + '/g.tex')
@@ -199,6 +201,22 @@ def run_layout(slots, tier, acc):
                          (loose2, 'default-after-non-strict:same-object')):
             for name in seqn:
                 check_name(obj, base, name, owners, acc, dict(slots=list(slots), base=tag, name=name.replace(root, '<root>')), via_l2t=False)
+        # several converters alive at once, configured one after the other: every object keeps its own directory and strictness
+        A = LatexNodes2Text()
+        A.set_tex_input_directory(base)
+        B = LatexNodes2Text()
+        B.set_tex_input_directory(base, strict_input=False)
+        for name in seqn:
+            check_name(A, base, name, owners, acc, dict(slots=list(slots), base='two-converters:other-configured-non-strict-later', name=name.replace(root, '<root>')), via_l2t=False)
+        Cc = LatexNodes2Text()
+        outdir = os.path.join(root, 'out')
+        Cc.set_tex_input_directory(outdir)
+        for name in seqn + ['secret', 'x.tex']:
+            check_name(A, base, name, owners, acc, dict(slots=list(slots), base='two-converters:other-configured-on-other-directory-later', name=name.replace(root, '<root>')), via_l2t=False)
+        A2 = LatexNodes2Text()
+        A2.set_tex_input_directory(base)
+        for name in ['secret', 'x', '../in/x', '../in/sub/g', 'back']:
+            check_name(Cc, outdir, name, owners, acc, dict(slots=list(slots), base='two-converters:first-object-after-second-configured', name=name.replace(root, '<root>')), via_l2t=False)
         # no directory configured: no file access at all
         l2t0 = LatexNodes2Text()
         for name in [os.path.join(root, 'in', 'sub', 'g.tex'), os.path.join(root, 'out', 'secret.tex')]:
@@ -215,10 +233,10 @@ def plan(tier):
     shards = list(itertools.product(range(len(SLOT_STATES)), repeat=3))
     return dict(
         shards=shards, bounds=dict(b, slot_states=SLOT_STATES, components=COMPONENTS, layouts=len(shards)),
-        rule=('125 layouts (5 states for each of in/x, in/x.tex, in/x.latex) x fixtures (in/sub/g.tex, sibling in2/, outside out/, directory symlinks '
+        rule=('216 layouts (6 states, incl. a file symlink whose target passes through a directory symlink, for each of in/x, in/x.tex, in/x.latex) x fixtures (in/sub/g.tex, sibling in2/, outside out/, directory symlinks '
               'in/lnkdir -> ../out and in/sub/up -> .., file symlink out/back -> inside, base also reached through a symlink and with trailing slash / '
               'dot-dot spelling, also dot-dot after a symlinked directory) x 10 names that pass through a symlinked directory and then dot-dot x every name of <= %d components over 16 components, 6 absolute spellings; read_input_file and (for the plain base) '
-              'latex_to_text of \\input/\\include; a converter re-configured between directories; 8 names read without strict mode and then in strict mode (same and other object).  non-trivial = calls that returned file content.' % b['depth']),
+              'latex_to_text of \\input/\\include; a converter re-configured between directories; 8 names read without strict mode and then in strict mode (same and other object); three converters alive at once and configured one after the other (non-strict, other directory).  non-trivial = calls that returned file content.' % b['depth']),
         assumptions=['os.path.realpath of the marker owner decides containment; files are identified by unique content markers'],
     )
 
